@@ -17,7 +17,7 @@ META = {
             "(view >= limit - limit/4 > 0 whenever everything delivered was consumed); negative control: updates held back until "
             "a whole window is pending. Every transition of the bounded state graphs, seeded random long histories and histories "
             "with windows next to 2^31-1 are executed on real inFlow / trInFlow values; TLC validates the recorded calls with a "
-            "monitor that rebuilds the peer's view from the returned window updates only (numbers as decimal digit arrays).",
+            "monitor that rebuilds the peer's view from the returned window updates only (numbers logged as two limbs of 10^6, exact limb arithmetic in the monitor).",
     "note": "The literal clause 'restored to at least the configured window' does not hold by design (updates are batched until "
             "limit/4 is pending) and is reported as a known finding; so is the cap when a BDP limit raise arrives while the extra "
             "window of a ~2 GiB read request is outstanding. The BDP estimator's arithmetic is not modelled (only its effect "
@@ -26,6 +26,8 @@ META = {
 
 SIG_LITERAL = "C04:literal-window-restored:batched-updates"
 SIG_CAPNL = "C04:cap:newlimit-while-adjust-window-outstanding"
+SIG_LOW_CONN = "C04:limit-lowered-by-bdp:conn-window-update-underflow"
+SIG_LOW_STREAM = "C04:limit-lowered-by-bdp:stream-wedged-by-unflushed-pending-update"
 
 
 def step_of(state_text, label):
@@ -61,45 +63,53 @@ def report(ctx, res, tpath, what):
 
 
 def run(ctx):
-    quick = ctx.quick()
-    ctx.mc("InFlowMC", ctx.pick("InFlowMC.cfg", "InFlowMCThorough.cfg"), workers=8)
-    ctx.mc("InFlowMC", ctx.pick("InFlowNLMC.cfg", "InFlowNLMCThorough.cfg"), workers=8)
-    ctx.mc("InFlowMC", ctx.pick("InFlowConnMC.cfg", "InFlowConnMCThorough.cfg"), workers=2)
+    # One TLC run per configuration serves both as the exhaustive check (the cfg lists the invariants) and as the
+    # source of behaviours (state-graph dump).  InFlowNLMC: stream level with padding, large messages and limit
+    # raises (CONSTRAINT Unmarked cuts behaviours at the known cap-at-newLimit mark); InFlowConnMC: connection level.
+    graphs = []
+    if ctx.quick():
+        graphs.append(("InFlowNLMC.cfg", ctx.dump_graph("InFlowMC", "InFlowNLMC.cfg", workers=8), 700))
+        graphs.append(("InFlowConnMC.cfg", ctx.dump_graph("InFlowMC", "InFlowConnMC.cfg", workers=2), 150))
+    else:
+        ctx.mc("InFlowMC", "InFlowMCThorough.cfg", workers=8)
+        ctx.mc("InFlowMC", "InFlowNLMCThorough.cfg", workers=8)
+        ctx.mc("InFlowMC", "InFlowConnMCThorough.cfg", workers=2)
+        expect_violated(ctx, "InFlowLit.cfg", "I_Literal", "literal reading of 'restored to at least the configured window'")
+        expect_violated(ctx, "InFlowCapNL.cfg", "I_NoViol", "cap exceeded by a limit raise while maybeAdjust's extra window is outstanding")
+        graphs.append(("InFlowGenThorough.cfg", ctx.dump_graph("InFlowMC", "InFlowGenThorough.cfg", workers=8), 40000))
+        graphs.append(("InFlowGenNLThorough.cfg", ctx.dump_graph("InFlowMC", "InFlowGenNLThorough.cfg", workers=8), 20000))
+        graphs.append(("InFlowConnMC.cfg", ctx.dump_graph("InFlowMC", "InFlowConnMC.cfg", workers=2), None))
     ctx.neg("InFlowMC", "InFlowNeg.cfg", expect="I_NoWedge", workers=2)
-    expect_violated(ctx, "InFlowLit.cfg", "I_Literal", "literal reading of 'restored to at least the configured window'")
-    expect_violated(ctx, "InFlowCapNL.cfg", "I_NoViol", "cap exceeded by a limit raise while maybeAdjust's extra window is outstanding")
 
     binary = ctx.go_build("internal/transport", name="c04", only=r"zz_verif_c04_")
 
     # ---- behaviours from TLC: edge cover of the bounded graphs
     behs = []
     shift = (1 << 31) - 1
-    for cfg, lim in ((ctx.pick("InFlowGen.cfg", "InFlowGenThorough.cfg"), ctx.pick(1200, 40000)),
-                     (ctx.pick("InFlowGenNL.cfg", "InFlowGenNLThorough.cfg"), ctx.pick(700, 20000))):
+    for cfg, g, lim in graphs:
         c = cfg_consts(ctx, cfg)
-        g = ctx.dump_graph("InFlowMC", cfg)
         bs = ctx.edge_cover(g, step_of, limit=lim)
         init = {"a": "init", "limit": c["Limit"], "trlimit": c["TrLimit"]}
         for b in bs:
             behs.append([init] + b)
             ctx.count(b, nontrivial=len(b) >= 2)
-        if "NL" not in cfg:
-            # the same behaviours with the limit moved next to the real cap: limit + n > MaxWin in the model
-            # iff limit_real + n > 2^31-1 on the code (exercises maybeAdjust's clamp on TLC-chosen histories)
-            s = shift - c["MaxWin"]
-            init2 = {"a": "init", "limit": c["Limit"] + s, "trlimit": c["TrLimit"] + s}
-            sub = [b for b in bs if any(st["a"] == "request" and st["n"] + c["Limit"] >= c["MaxWin"] for st in b)]
-            ctx.rng.shuffle(sub)
-            for b in sub[:ctx.pick(150, 5000)]:
-                behs.append([init2] + b)
-                ctx.count(["shifted"] + b, nontrivial=True)
+        # the behaviours with a large read request and no limit raise, re-run with the limit moved next to the real
+        # cap: limit + n > MaxWin in the model iff limit_real + n > 2^31-1 on the code (maybeAdjust's clamp)
+        s = shift - c["MaxWin"]
+        init2 = {"a": "init", "limit": c["Limit"] + s, "trlimit": c["TrLimit"] + s}
+        sub = [b for b in bs if any(st["a"] == "request" and st["n"] + c["Limit"] >= c["MaxWin"] for st in b)
+               and not any(st["a"] in ("newlimit", "trnewlimit") for st in b)]
+        ctx.rng.shuffle(sub)
+        for b in sub[:ctx.pick(100, 5000)]:
+            behs.append([init2] + b)
+            ctx.count(["shifted"] + b, nontrivial=True)
     ctx.sample(behs[len(behs) // 2])
     bpath = os.path.join(ctx.run, "beh.ndjson")
     write_ndjson(bpath, behs)
     t_replay = os.path.join(ctx.run, "trace-replay.ndjson")
     ctx.driver(binary, "TestVerifC04Replay", {"VERIF_BEHAVIOURS": bpath, "VERIF_OUT": t_replay})
     t_random = os.path.join(ctx.run, "trace-random.ndjson")
-    n = ctx.pick(40, 1500)
+    n = ctx.pick(30, 1500)
     ctx.driver(binary, "TestVerifC04Random", {"VERIF_OUT": t_random, "VERIF_N": n})
     ctx.count({"random_histories": n, "seed": ctx.seed}, n=n)
     t_big = os.path.join(ctx.run, "trace-big.ndjson")
@@ -116,7 +126,11 @@ def run(ctx):
 
     # ---- the literal clause, reported separately.  It can only fail alone (without I_NoWedge, which is marked
     #      first) when the shortfall is below limit/4, i.e. exactly the batched-updates class.
-    t_lit = ctx.pick(t_random, t_all)
+    t_lit = t_all
+    if ctx.quick():
+        t_lit = os.path.join(ctx.run, "trace-lit.ndjson")
+        with open(t_lit, "w") as out:
+            out.writelines(open(t_random).readlines()[:1500])
     res = ctx.validate("InFlowTrace", "InFlowTraceLit.cfg", t_lit, count_resets=False)
     if not res["accepted"]:
         text, art = report(ctx, res, t_lit, "literal clause 'peer view >= configured window once everything was read'")
@@ -132,17 +146,31 @@ def run(ctx):
     if not res["accepted"]:
         text, art = report(ctx, res, t_nl, "limit raise while maybeAdjust's extra window is outstanding")
         seg = [json.loads(x) for x in art["segment"]]
-        big_adjust = any(e.get("ev") == "adjust" and len(e.get("wu", [])) >= 10 for e in seg)
+        big_adjust = any(e.get("ev") == "adjust" and e.get("wu", [0, 0])[0] >= 1000 for e in seg)
         if res["clause"] == "I_CapAtNewLimitAfterAdjust" and big_adjust:
             ctx.finding(SIG_CAPNL, text, art)
         else:
             ctx.violation(text, art)
-    ctx.cov["rule"] = ("behaviours = edge cover of the TLC state graphs of InFlowMC (stream level with padding; with limit raises and "
+    # ---- BDP estimate below a configured (non-static) window: updateFlowControl(n) with n < limit
+    for case, clause, sig in (("conn", "I_CapConnAtLoweredLimit", SIG_LOW_CONN),
+                              ("stream", "I_NoWedgeAfterLimitLowered", SIG_LOW_STREAM)):
+        t_low = os.path.join(ctx.run, "trace-lowered-%s.ndjson" % case)
+        ctx.driver(binary, "TestVerifC04Lowered", {"VERIF_OUT": t_low, "VERIF_CASE": case})
+        res = ctx.validate("InFlowTrace", "InFlowTrace.cfg", t_low)
+        if not res["accepted"]:
+            text, art = report(ctx, res, t_low, "limit lowered by a BDP estimate below the configured window (%s level)" % case)
+            if res["clause"] == clause:
+                ctx.finding(sig, text, art)
+            else:
+                ctx.violation(text, art)
+    ctx.cov["rule"] = ("behaviours = edge cover of the TLC state graphs of InFlowMC (stream level with padding, large messages and limit raises; "
                        "connection-level events), each executed call by call on real inFlow / trInFlow values, plus the subset with "
                        "large read requests re-run with the limit shifted next to 2^31-1; non-trivial = >= 2 steps; distinct by step "
                        "sequence; plus seeded random histories of 30-330 steps and hand-picked near-cap histories")
     ctx.assumptions += [
         "the application follows Stream.read (one outstanding read request, reads at most what is buffered)",
-        "newLimit is only called with a larger value (documented precondition; the BDP estimator only grows)",
+        "model checking and the replayed / random histories call newLimit only with a larger value (its documented precondition); "
+        "the case n < limit, which updateFlowControl produces when InitialWindowSize / InitialConnWindowSize configure more than the "
+        "first BDP estimates, is executed on the real code by a dedicated driver only and is reported as a known finding",
         "DATA frames are at most 16384 bytes in random and near-cap histories (gRPC's max frame size)",
     ]
